@@ -429,18 +429,28 @@ def run(ctx, rep):
         for st in own_nodes(h2b.node):
             if isinstance(st, ast.Assign) and isinstance(st.targets[0], ast.Name) and unparse(st.value) == "len(vocab_itos)":
                 env[st.targets[0].id] = {("len(vocab_itos)",): 1}
+        VL = {("len(%s)" % v,): 1}
+        for nm_, st in inside.items():
+            # a name bound (once, in the loop body itself) to the current vector's length
+            if unparse(st.value) == "len(%s)" % v and any(st is x for x in lp.body) \
+                    and sum(1 for x in ast.walk(lp) if isinstance(x, ast.Name) and x.id == nm_ and isinstance(x.ctx, ast.Store)) == 1:
+                env[nm_] = dict(VL)
         W = {("len(vocab_itos)",): 1}
         # divisibility test on this vector
         tests = [n for n in ast.walk(lp) if isinstance(n, ast.If) and any(isinstance(x, ast.Raise) for x in n.body)
                  and isinstance(n.test, ast.Compare) and isinstance(n.test.left, ast.BinOp) and isinstance(n.test.left.op, ast.Mod)]
-        good_test = [t for t in tests if unparse(t.test.left.left) == "len(%s)" % v and poly(t.test.left.right, env) == W
+        good_test = [t for t in tests if poly(t.test.left.left, env) == VL and poly(t.test.left.right, env) == W
                      and isinstance(t.test.ops[0], ast.NotEq) and unparse(t.test.comparators[0]) == "0"]
         if not good_test:
             probs.append("no per-vector test 'len(vector) % len(vocab) != 0 -> raise' inside the batch loop")
         # rows: a name bound to len(v) // W inside the loop
         rows = [nm for nm, st in inside.items() if isinstance(st.value, ast.BinOp) and isinstance(st.value.op, ast.FloorDiv)
-                and unparse(st.value.left) == "len(%s)" % v and poly(st.value.right, env) == W]
-        if not rows:
+                and poly(st.value.left, env) == VL and poly(st.value.right, env) == W]
+        # ... or the rows are stepped through directly:  for start in range(0, len(vector), width): vector[start: start + width]
+        stepped = [n for n in ast.walk(lp) if isinstance(n, ast.For) and n is not lp and isinstance(n.target, ast.Name)
+                   and isinstance(n.iter, ast.Call) and unparse(n.iter.func) == "range" and len(n.iter.args) == 3 and not n.iter.keywords
+                   and poly(n.iter.args[0], env) in ({}, {(): 0}) and poly(n.iter.args[1], env) == VL and poly(n.iter.args[2], env) == W]
+        if not rows and not stepped:
             probs.append("the number of rows is not len(vector) // len(vocab) computed for the current vector")
         # slices
         sl = [n for n in ast.walk(lp) if isinstance(n, ast.Subscript) and isinstance(n.slice, ast.Slice) and isinstance(n.value, ast.Name)
@@ -462,6 +472,12 @@ def run(ctx, rep):
             probs.append("the divisibility test is not applied to every vector (it sits under another condition)")
         if rows and not any(inside[r] is st for r in rows for st in lp.body):
             probs.append("the number of rows is not recomputed for every vector")
+        if stepped and not rows:
+            if not any(st is x for st in stepped for x in lp.body):
+                probs.append("the rows are not stepped through for every vector")
+            elif not any(isinstance(s_.slice.lower, ast.Name) and s_.slice.lower.id == stepped[0].target.id
+                         and any(x is s_ for x in ast.walk(stepped[0])) for s_ in sl):
+                probs.append("the row slices do not start at the stepped positions")
         if good_test and sl:
             # the test must precede the reshape in the loop body
             order = [id(x) for x in ast.walk(lp)]
